@@ -14,6 +14,8 @@ CONSTANTS
   CompileMode = "stated"
   Inners <- InnersNone
   ScopeMode = "stated"
+  Doors <- DoorsApi
+  HookMode = "stated"
 INIT InitThorough
 NEXT Next
 INVARIANTS KeepInv BalanceSheetInv IncomeInv EquityInv TxBalanceInv LayoutInv FilterInv CompileInv SortedInv ExpectInv
